@@ -43,9 +43,19 @@ def sh(cmd, **kw):
     return subprocess.run(cmd, stdout=subprocess.PIPE, stderr=subprocess.PIPE, text=True, **kw)
 
 
-def units_for(prop):
+def enabled_units():
+    p = os.path.join(VERIF, 'contracts', 'ENABLED.txt')
+    if not os.path.exists(p):
+        return None
+    return set(l.split('#')[0].strip() for l in open(p) if l.split('#')[0].strip())
+
+
+def units_for(prop, only_enabled=True):
     res = []
+    en = enabled_units() if only_enabled else None
     for tpl in sorted(glob.glob(os.path.join(VERIF, 'contracts', '*', 'unit.rs.tpl'))):
+        if en is not None and os.path.basename(os.path.dirname(tpl)) not in en:
+            continue
         for line in open(tpl):
             if line.startswith('//@serves') and prop in line.split()[1:]:
                 res.append(tpl)
@@ -172,7 +182,7 @@ def run_unit(tpl, scratch, tier, keep):
     res['serves'] = unit.serves
     gen = os.path.join(scratch, name + '.rs')
     open(gen, 'w').write(text)
-    exdir = os.path.join(VERIF, 'evidence', 'extracted')
+    exdir = os.path.join(VERIF if os.path.realpath(REPO) == '/repo' else os.path.join(SCRATCH_ROOT, 'verif-out'), 'evidence', 'extracted')
     os.makedirs(exdir, exist_ok=True)
     shutil.copy(gen, os.path.join(exdir, name + '.rs'))
     res['generated'] = os.path.join('evidence', 'extracted', name + '.rs')
@@ -311,7 +321,7 @@ def main():
         import replay_run
         sys.exit(replay_run.replay(args.replay))
 
-    tpls = units_for(prop)
+    tpls = units_for(prop, only_enabled=not args.unit)   # --unit: also units not yet enabled (development)
     if args.unit:
         tpls = [t for t in tpls if os.path.basename(os.path.dirname(t)) == args.unit]
     kani_units = []
@@ -393,7 +403,10 @@ def main():
 
     # replay files + output
     rc = 0
-    os.makedirs(os.path.join(VERIF, 'replays'), exist_ok=True)
+    # runs against a scratch copy (mutant trials) must not clobber the committed replays / evidence
+    on_real_repo = os.path.realpath(REPO) == '/repo'
+    OUT = VERIF if on_real_repo else os.path.join(SCRATCH_ROOT, 'verif-out')
+    os.makedirs(os.path.join(OUT, 'replays'), exist_ok=True)
     for kf, f in known_hits:
         print('KNOWN-FINDING: property=%s %s (%s)' % (prop, kf.get('what', f['obligation']), f['obligation']))
     vio_by_unit = {}
@@ -402,7 +415,7 @@ def main():
     n = 0
     for uname, lst in vio_by_unit.items():
         n += 1
-        path = os.path.join(VERIF, 'replays', '%s-%s-%d.json' % (prop, uname, n))
+        path = os.path.join(OUT, 'replays', '%s-%s-%d.json' % (prop, uname, n))
         r = lst[0][0]
         rec = {'property': prop, 'unit': uname, 'obligations': [f['obligation'] for _, f in lst],
                'verifier_output': [f.get('rendered') or f.get('message') for _, f in lst],
@@ -458,8 +471,8 @@ def main():
         'wall_s': wall,
         'violations': len(vio_by_unit),
     }
-    os.makedirs(os.path.join(VERIF, 'evidence'), exist_ok=True)
-    json.dump(ev, open(os.path.join(VERIF, 'evidence', prop + '.json'), 'w'), indent=1)
+    os.makedirs(os.path.join(OUT, 'evidence'), exist_ok=True)
+    json.dump(ev, open(os.path.join(OUT, 'evidence', prop + '.json'), 'w'), indent=1)
     if rc == 0:
         print('OK property=%s obligations=%d discharged=%d units=%d wall=%.1fs' % (prop, obligations, discharged, len(results), wall))
     sys.exit(rc)
